@@ -46,6 +46,10 @@ impl<A: Ord> PartialEq for VClock<A> {
     }
 }
 impl<A: Ord> Eq for VClock<A> {}
+impl<A: Ord + core::hash::Hash> core::hash::Hash for VClock<A> {
+    #[verifier::external_body]
+    fn hash<H: core::hash::Hasher>(&self, state: &mut H) { self.dots.hash(state) }
+}
 
 impl<A: Ord> Default for VClock<A> {
 //@extract fn src/vclock.rs "Default for VClock" default
